@@ -6,6 +6,7 @@ P = dict(
         dict(module="MC_C17", quick_cfg="MC_C17_control.cfg", thorough_cfg="MC_C17_control.cfg", expect_violation=True, coverage=False),
         dict(module="MC_C17", quick_cfg="MC_C17_d17.cfg", thorough_cfg="MC_C17_d17.cfg", expect_violation=True, coverage=False)],
     drift_checked=True,
+    proofs=["Proof_C17"],
     required_events=["line"],
     level_text="TLC steps the transcribed Bresenham machine (one action per next()) for every delta of a square from two start "
                "points and the transcribed ParallelsIterator/ThickPoints machine for every delta and stroke width of a smaller "
